@@ -14,6 +14,7 @@ Header keys (all on `//@` lines directly above the `#[kani::proof…] fn name()`
   checks: full | functional | noov    -- full = all Kani default checks (default); functional = memory-safety checks off; noov = also overflow checks off
   timeout: seconds                   -- per-harness timeout (default 600)
   note: free text
+  cost: heavy                        -- scheduling hint: single run > ~100 s; heavy harnesses go into their own cargo-kani invocation that starts first
   anchor: yes                        -- harness exists for a structural reason only; never run, never counted
 """
 import os
@@ -42,6 +43,7 @@ class Obligation:
         self.covers = 0
         self.checks = "full"
         self.timeout = 600
+        self.heavy = False
         self.note = ""
         self.backend = "kani"
         self.generated = False
@@ -117,6 +119,7 @@ def parse_contract_text(text, crate, src_file, contract_file, generated=False):
             o.checks = cur.get("checks", "full")
             o.timeout = int(cur.get("timeout", "600"))
             o.note = cur.get("note", "")
+            o.heavy = cur.get("cost", "") == "heavy"
             if o.kind not in ("complete", "bounded"):
                 raise SystemExit("registry: bad kind for %s" % o.harness)
             if o.kind == "bounded" and not o.bound:
